@@ -5,5 +5,5 @@ D=$(mktemp -d /tmp/mut.XXXX)
 cp -r /repo/src $D/src
 sed -i "$2" $D/src/votekit/$1
 if diff -q /repo/src/votekit/$1 $D/src/votekit/$1 >/dev/null; then echo "MUTATION DID NOT APPLY"; rm -rf $D; exit 1; fi
-VERIF_REPO=$D /verif/.venv/bin/python /verif/pyvc/run.py $3 $4 2>&1 | grep -v "^  lemma" | head -${5:-6}
+VERIF_REPO=$D /verif/.venv/bin/python ${RUNNER:-/verif/pyvc/run.py} $3 $4 2>&1 | grep -v "^  lemma" | head -${5:-6}
 rm -rf $D
